@@ -30,6 +30,9 @@ CASES = {
     'optimize-linktime': ("opts.optimize('linktime')", 'int main(void) { return 0; }\n', {}, 'run0'),
     'optimize-size-linktime': ("opts.optimize('size', 'linktime')", MAIN_MACRO % 'defined(__OPTIMIZE_SIZE__)', {}, 'run0'),
     'pic': ("opts.pic()", MAIN_MACRO % 'defined(__PIC__)', {}, 'run0'),
+    'define-empty-value': ("opts.define('EMPTY', '')",
+                           '#define STR2(x) #x\n#define STR(x) STR2(x)\nint main(void) { return sizeof(STR(EMPTY)) - 1; }\n', {}, 'run0'),
+    'sanitize': ("opts.sanitize()", MAIN_MACRO % 'defined(__SANITIZE_ADDRESS__)', {}, 'run0'),
     'pthread': ("opts.pthread()", MAIN_MACRO % 'defined(_REENTRANT)', {}, 'run0'),
 }
 # cases with their own build script: (build.bfg body, main.c, files, expectation, environment at configure time,
@@ -60,6 +63,28 @@ SCRIPT_CASES = {
         'int bar(void);\nint main(void) { return bar(); }\n',
         {'pre.h': '#define PRE_VAL 3\n', 'foo.c': 'int foo(void) { return PRE_VAL - 3; }\n',
          'bar.c': 'int foo(void);\nint bar(void) { return foo(); }\n'}, 'run0', {}, {}),
+    # a system include directory given as a *global* option keeps its meaning: warnings in its headers are not errors
+    'system-include-dir-global': (
+        "sysinc = header_directory('sysinc', system=True)\n"
+        "global_options([opts.include_dir(sysinc), opts.warning('all', 'error')], lang='c')\n"
+        "executable('prog', files=['main.c'])\n",
+        '#include "noisy.h"\nint main(void) { return 0; }\n', {'sysinc/noisy.h': 'static int unused_fn(void) { return 0; }\n'},
+        'run0', {}, {}),
+    'system-include-dir-target': (
+        "sysinc = header_directory('sysinc', system=True)\n"
+        "executable('prog', files=['main.c'], compile_options=[opts.include_dir(sysinc), opts.warning('all', 'error')])\n",
+        '#include "noisy.h"\nint main(void) { return 0; }\n', {'sysinc/noisy.h': 'static int unused_fn(void) { return 0; }\n'},
+        'run0', {}, {}),
+    # a C++ program whose precompiled header has the ambiguous extension .h: it is a C++ header
+    'pch-dot-h-in-c++': (
+        "executable('prog', files=['main.cpp'], pch='pre.h', compile_options=[opts.std('c++14')])\n",
+        'int main(void) { return 0; }\n',
+        {'main.cpp': 'int main() { std::vector<int> v(PRE); return (int)v.size() - 3; }\n',
+         'pre.h': '#include <vector>\n#define PRE 3\n'}, 'run0', {}, {}),
+    # a library given as a global link option reaches the link
+    'library-as-global-link-option': (
+        "global_link_options([opts.lib('m')])\nexecutable('prog', files=['main.c'])\n",
+        '#include <math.h>\nint main(int c, char **v) { return cos((double)c) > 2.0; }\n', {}, 'run0', {}, {}),
     # another compiler driver and an explicitly chosen linker: warnings as errors must still accept clean code
     'clang-with-ld.bfd-warnings-as-errors': (
         "executable('prog', files=['main.c'], compile_options=[opts.warning('all', 'error')])\n",
@@ -73,7 +98,7 @@ PLACEMENTS = {
     'target': "executable('prog', files=['main.c'], compile_options=[%(opt)s], link_options=[%(lopt)s])\n",
     'global': "global_options([%(opt)s], lang='c')\nglobal_link_options([%(lopt)s])\nexecutable('prog', files=['main.c'])\n",
 }
-LINK_TOO = ('pthread', 'debug', 'optimize-linktime', 'optimize-size-linktime', 'optimize-size', 'optimize-speed',
+LINK_TOO = ('sanitize', 'pthread', 'debug', 'optimize-linktime', 'optimize-size-linktime', 'optimize-size', 'optimize-speed',
             'optimize-disable')
 
 
